@@ -311,7 +311,10 @@ impl FixtureDatabase {
             .as_ref()
             .and_then(|ws| file_path.strip_prefix(ws).ok())
             .unwrap_or(file_path);
-        relevant.to_string_lossy().contains("site-packages")
+        // (a directory called site-packages, not one whose name merely contains the word)
+        relevant
+            .components()
+            .any(|component| component.as_os_str() == "site-packages")
     }
 
     /// The lock that serialises analyses of one file.
